@@ -209,6 +209,29 @@ type common struct {
 	tier   string
 }
 
+// throttlePorts waits while too many loopback sockets sit in TIME_WAIT: engines that create a cluster and several
+// connections per case, hundreds of cases per second, would otherwise run out of ephemeral ports in long runs
+// (connections then fail for reasons that have nothing to do with the library).
+func throttlePorts() {
+	for i := 0; i < 120; i++ {
+		b, err := os.ReadFile("/proc/net/tcp")
+		if err != nil {
+			return
+		}
+		n := 0
+		for _, l := range strings.Split(string(b), "\n") {
+			f := strings.Fields(l)
+			if len(f) > 3 && f[3] == "06" {
+				n++
+			}
+		}
+		if n < 12000 {
+			return
+		}
+		time.Sleep(time.Second)
+	}
+}
+
 func commonFlags(name string, args []string, extra func(fs *flag.FlagSet)) common {
 	var c common
 	fs := flag.NewFlagSet(name, flag.ExitOnError)
